@@ -39,6 +39,44 @@ m = {
              "Exit 2 + ANALYSIS-BROKEN means a rule could not fill its slots (never a pass, never "
              "a violation). Known findings: /verif/known_findings.json. See DESIGN.md.",
 }
+import inspect  # noqa: E402
+from nv.props import all_rules  # noqa: E402
+
+_RULES = all_rules()
+
+
+def technique_of(rule_ids):
+    """name the deciding methods the property's rules actually use (read off their source)"""
+    kinds = {"struct": [], "prover": [], "grid": [], "eval": []}
+    for rid in rule_ids:
+        fn = _RULES.get(rid)
+        try:
+            src = inspect.getsource(fn) if fn else ""
+        except (OSError, TypeError):
+            src = ""
+        if "Interp(" in src or "_parse_probe" in src or "admitted_cells" in src:
+            kinds["eval"].append(rid)
+        elif "_walk_path" in src or "run_iteration" in src or "bounded(" in src:
+            kinds["grid"].append(rid)
+        elif "path_states" in src or "prove_le" in src or "prove_index" in src or "feasible(" in src:
+            kinds["prover"].append(rid)
+        else:
+            kinds["struct"].append(rid)
+    parts = []
+    if kinds["struct"]:
+        parts.append("AST/CFG/call-graph rules (dominance, must-pass-through, reach-avoid, who-may-write, "
+                     "table and sibling agreement): " + " ".join(kinds["struct"]))
+    if kinds["prover"]:
+        parts.append("path-sensitive dataflow with a linear (Fourier-Motzkin) bounds prover over the function's "
+                     "CFG paths, helper exit summaries and loop invariants: " + " ".join(kinds["prover"]))
+    if kinds["grid"]:
+        parts.append("evaluation of the CFG paths of one loop iteration over a grid of orderings: " + " ".join(kinds["grid"]))
+    if kinds["eval"]:
+        parts.append("abstract evaluation of a pure function's AST on every member of a small input domain "
+                     "against a reference reading: " + " ".join(kinds["eval"]))
+    return "static analysis over libTooling facts of the current tree (nothing is executed): " + "; ".join(parts)
+
+
 for pid in ALL:
     if pid in PROPS:
         sp = PROPS[pid]
@@ -58,8 +96,7 @@ for pid in ALL:
             },
             "level_note": sp.get("level_note", "trusted: clang 14 front end + CFG builder, the rule "
                                  "modules and their accepted-idiom tables; rules: " + " ".join(sp["rules"])),
-            "technique": sp.get("technique", "static analysis: custom AST/CFG/call-graph rules "
-                                "(dominance, must-pass-through, who-may-write) over libTooling facts"),
+            "technique": sp.get("technique", technique_of(sp["rules"])),
         })
     else:
         m["not_applicable"].append({"property_id": pid, "reason": NOT_APPLICABLE.get(
